@@ -248,9 +248,15 @@ class RealRun:
             return "ValueError"
         except B.BackendResolutionError as e:
             msg = str(e)
-            if "Multiple registered backends" in msg:
+            # Both failures are BackendResolutionErrors raised in `_get`; they are told apart by what the message LISTS after
+            # its last ": " (registered backend names = several candidates; type reprs = no candidate), not by its wording
+            # (work package "robust": a reworded message must not derail the correspondence).
+            tail = msg.rsplit(": ", 1)[1].split("\n")[0].split(", ") if ": " in msg else []
+            known = {sp["name"] for sp in self.world.specs} | set(self.reg.state.name_to_backend.keys())   # (the candidates may
+            #                     live in a state copy that is discarded on error, so the surviving state alone does not know them)
+            if len(tail) >= 2 and all(t in known for t in tail):
                 # the candidates live in a state copy that is discarded on error: compare by name
-                return {"multiple": sorted(msg.rsplit(": ", 1)[1].split(", "))}
+                return {"multiple": sorted(tail)}
             return "nomatch"
         except (AssertionError, IndexError):
             return "assertion"
